@@ -27,13 +27,15 @@ def nontrivial(d):
     return len(d["units"]) >= 2 and any(s != "zero" for s in d["steps"])
 
 
-def _offenders(e):
-    """units of an accepted pulling step that were told to brake / got more than they published"""
+def _offenders(e, lim=True):
+    """units of an accepted pulling step that were told to brake / got more than they published (the latter is not
+    judged for a demand above the published consist limit with limit checking off: ConsistSplit!InRangePos)"""
     if e.get("ev") != "Step" or not e.get("acc") or e.get("sg", 0) <= 0:
         return []
     slack = 0 if e.get("exact") else 1      # slack of RangePos on off-lattice records (ConsistSplit.tla)
+    ranged = lim or e["req"] <= e["agg"]["out_max"]
     return [i for i in range(len(e["p"]))
-            if e["p"][i] < 0 or e["p"][i] > e["pub"][i] + slack or e["mpo"][i] < 0 or e["mdb"][i] != 0]
+            if e["p"][i] < 0 or (ranged and e["p"][i] > e["pub"][i] + slack) or e["mpo"][i] < 0 or e["mdb"][i] != 0]
 
 
 def sig_bel_negative_pub(desc, events, inv):
@@ -43,7 +45,7 @@ def sig_bel_negative_pub(desc, events, inv):
         return False
     seen = False
     for e in events:
-        for i in _offenders(e):
+        for i in _offenders(e, bool(desc.get("lim", True))):
             if not (e["kind"][i] == "B" and e["pub"][i] < 0):
                 return False
             seen = True
@@ -52,11 +54,19 @@ def sig_bel_negative_pub(desc, events, inv):
 
 RULE = ("cases = every maximal behaviour (composition, policy, sequence of demand classes) reached by TLC in the bounded "
         "ConsistSplit configs, replayed into a real Consist + seeded random mixed consists of 1-8 dyadic units with "
-        "ramp/SOC histories + the materialised inputs of known findings; distinct = distinct case descriptors (sha256); "
+        "ramp/SOC histories, a fifth of them with limit checking off and demands far above the published limit + the materialised inputs of known findings; distinct = distinct case descriptors (sha256); "
         "non-trivial = at least two units and at least one non-zero demand; every step of every case is a judged state")
 
 ASSUME = ["only ACCEPTED steps are judged (Err from Consist::solve_energy_consumption = rejected; the harness restores a "
           "clone, as walk would stop); a panic inside the split is recorded as NoPanic and not attributed to C10",
+          "both modes of limit checking (Consist::set_assert_limits(true|false), handed down to every unit): an accepted step "
+          "is a call that returned Ok in either mode. With limit checking off the consist neither refuses a demand outside "
+          "[-pwr_dyn_brake_max, pwr_out_max] nor checks the sum of the shares (consist_model.rs:270-289, :319); the units' own "
+          "ensure! (generator / drivetrain ratings, battery limits; not the engine's) still refuse shares. Reading of the "
+          "statement: Sum, Zero, NoOpposite, Regen, BatteryFirst and the Roll* roll-ups of C01 are judged on every accepted "
+          "step of either mode; RangePos / RangeNeg in either mode for every demand inside the consist's published range, and "
+          "NOT with limit checking off for a demand beyond it (the shares of a demand above the sum of the published limits "
+          "cannot all be within them while summing to the demand - refusing such a demand is what limit checking is)",
           "units are ConventionalLoco / BatteryElectricLoco with dyadic toy-scale parameters (ratings 32..384 W, flat "
           "efficiencies 1 or 1/2, aux 0..4 W, dt 1/2..2 s); policies RESGreedy and Proportional (the two implemented ones)",
           "domain predicate: every unit publishes a non-negative traction limit; a battery unit whose discharge limit is "
@@ -68,11 +78,14 @@ ASSUME = ["only ACCEPTED steps are judged (Err from Consist::solve_energy_consum
           "+ the code's own almost_eq epsilon (utils/mod.rs:148)"]
 
 # quickA: 1-2 units, 3 steps; quickB: 3 units, 2 steps (emission thinned 1-in-4 / 1-in-8 inside TLC, the check is not).
+# quickN: limit checking off (1-2 units, 2 steps, demands up to twice the published consist limit).
 _QUICK = [dict(cfg="MCConsistSplit_quickA.cfg", emit=True, max_emit=5000, workers=8, timeout=300),
-          dict(cfg="MCConsistSplit_quickB.cfg", emit=True, max_emit=5000, workers=8, timeout=300)]
+          dict(cfg="MCConsistSplit_quickB.cfg", emit=True, max_emit=5000, workers=8, timeout=300),
+          dict(cfg="MCConsistSplit_quickN.cfg", emit=True, max_emit=2000, workers=8, timeout=300)]
 # allA = 1-2 units with every start class, every behaviour emitted; thoroughA: 3 units, 3 steps; thoroughB: 4 units,
 # 2 steps; sim: 5-8 units by -simulate (one worker and -seed VERIF_SEED: the sample is reproducible).
 _THOROUGH = [dict(cfg="MCConsistSplit_allA.cfg", emit=True, max_emit=30000, workers=8, timeout=900),
+             dict(cfg="MCConsistSplit_quickN.cfg", emit=True, max_emit=13000, workers=8, timeout=900),
              dict(cfg="MCConsistSplit_thoroughA.cfg", emit=True, max_emit=20000, workers=8, timeout=1800),
              dict(cfg="MCConsistSplit_thoroughB.cfg", emit=True, max_emit=20000, workers=8, timeout=2400),
              dict(cfg="MCConsistSplit_sim.cfg", emit=True, max_emit=15000, workers=1, timeout=900,
@@ -135,6 +148,9 @@ def _tot(key, by):
 CORRUPT = {
     "share_lost": _corrupt(lambda e, d: e["sg"] != 0 and len(e["p"]) >= 2,
                            lambda e: e["p"].__setitem__(0, e["p"][0] + 8 + len(e["p"])), ["Sum"]),
+    # ... the same on a consist running with limit checking off (the code's own sum check is disabled there)
+    "share_lost_limits_off": _corrupt(lambda e, d: d.get("lim", True) is False and e["sg"] != 0 and len(e["p"]) >= 2,
+                                      lambda e: e["p"].__setitem__(0, e["p"][0] + 8 + len(e["p"])), ["Sum"]),
     "share_above_published_limit": _corrupt(lambda e, d: e["sg"] > 0 and _has(e, lambda i: e["p"][i] > 8),
                                             lambda e: e["pub"].__setitem__(_idx(e, lambda i: e["p"][i] > 8),
                                                                            e["p"][_idx(e, lambda i: e["p"][i] > 8)] - 2),
@@ -167,7 +183,7 @@ def _vacuity(r):
     s = r["stats"]
     if r["n_cases"] <= 3:       # --replay of a single case
         return None
-    for k in ("accepted", "rejected", "pos", "neg", "zero", "regen_deficit", "out_deficit", "walk_steps", "toy_steps"):
+    for k in ("accepted", "rejected", "pos", "neg", "zero", "regen_deficit", "out_deficit", "walk_steps", "toy_steps", "nolim_cases", "nolim_steps", "nolim_over"):
         if s.get(k, 0) == 0:
             return f"no recorded step of kind '{k}'"
     if s.get("out_of_domain", 0) * 10 > r["n_cases"]:
@@ -215,6 +231,8 @@ MANIFEST = {
                      "words over {conventional, battery} of 1-4 units x rating classes {1,2,3} x start classes, both policies, 17 "
                      "demand classes at / just below / just above every aggregate limit, pre-histories of up to 3 steps) and "
                      "re-evaluates them on every step the real Consist accepted for those behaviours and for seeded random "
-                     "consists of 1-8 units, driven through the public API and through ConsistSimulation::walk.",
+                     "consists of 1-8 units, driven through the public API and through ConsistSimulation::walk, with limit checking on and off "
+                     "(Consist::set_assert_limits(false): demands up to twice the published consist limit; the range clauses are "
+                     "then judged for demands inside the published range only, see the assumptions).",
                 note=_NOTE),
 }
